@@ -283,3 +283,107 @@ pub fn load_known(path: &str) -> Vec<KnownFinding> {
         Err(_) => vec![],
     }
 }
+
+
+// ---------------------------------------------------------------------------------------------
+// watchdog: a hang of the code under test that makes no file-system call and passes no tick
+// (so that the deterministic tick budget cannot see it) must not hang the check.
+
+use std::sync::atomic::{AtomicU64, Ordering};
+use std::sync::Mutex;
+
+pub const MAX_WORKERS: usize = 256;
+static BEATS: [AtomicU64; MAX_WORKERS] = [const { AtomicU64::new(0) }; MAX_WORKERS];
+static DESCR: Mutex<Vec<String>> = Mutex::new(Vec::new());
+static NEXT_SLOT: AtomicU64 = AtomicU64::new(0);
+static START: std::sync::OnceLock<Instant> = std::sync::OnceLock::new();
+
+thread_local! {
+    static SLOT: std::cell::Cell<usize> = const { std::cell::Cell::new(usize::MAX) };
+}
+
+fn now_ms() -> u64 {
+    START.get_or_init(Instant::now).elapsed().as_millis() as u64 + 1
+}
+
+fn slot() -> usize {
+    SLOT.with(|s| {
+        if s.get() == usize::MAX {
+            let n = NEXT_SLOT.fetch_add(1, Ordering::SeqCst) as usize % MAX_WORKERS;
+            s.set(n);
+            let mut d = DESCR.lock().unwrap();
+            while d.len() <= n {
+                d.push(String::new());
+            }
+        }
+        s.get()
+    })
+}
+
+/// Called by a worker when it starts a new leaf (history / image).
+pub fn watchdog_leaf(descr: impl FnOnce() -> String) {
+    let n = slot();
+    if let Ok(mut d) = DESCR.lock() {
+        d[n] = descr();
+    }
+    BEATS[n].store(now_ms(), Ordering::Relaxed);
+}
+
+/// Called before every execution of the code under test.
+pub fn watchdog_beat() {
+    let n = SLOT.with(|s| s.get());
+    if n != usize::MAX {
+        BEATS[n].store(now_ms(), Ordering::Relaxed);
+    }
+}
+
+/// Called when a worker is done.
+pub fn watchdog_idle() {
+    let n = SLOT.with(|s| s.get());
+    if n != usize::MAX {
+        BEATS[n].store(0, Ordering::Relaxed);
+    }
+}
+
+/// Spawns the watchdog thread: if a worker makes no progress for `limit_s` seconds the process
+/// writes a part file reporting the stall and exits (1 for the properties that forbid hangs,
+/// 2 otherwise).
+pub fn watchdog_start(property: String, tier: String, seed: u64, out: Option<PathBuf>, replay_dir: PathBuf, limit_s: u64) {
+    let _ = now_ms();
+    std::thread::spawn(move || loop {
+        std::thread::sleep(std::time::Duration::from_secs(2));
+        let now = now_ms();
+        for n in 0..MAX_WORKERS {
+            let b = BEATS[n].load(Ordering::Relaxed);
+            if b != 0 && now.saturating_sub(b) > limit_s * 1000 {
+                let descr = DESCR.lock().map(|d| d.get(n).cloned().unwrap_or_default()).unwrap_or_default();
+                let hang_is_verdict = property == "C10" || property == "C11";
+                let what = format!("the code under test made no progress for more than {} s (no file-system call, no tick) while working on: {}", limit_s, descr);
+                let _ = std::fs::create_dir_all(&replay_dir);
+                let path = replay_dir.join(format!("{}-{}-watchdog-{:016x}.json", property, crate::geometry_name(), hash_of(&descr)));
+                let case: Value = serde_json::from_str(&descr).unwrap_or(json!({"leaf": descr}));
+                let _ = std::fs::write(&path, serde_json::to_string_pretty(&json!({"property": property, "signature": "hang-without-progress", "what": what, "geometry": crate::geometry_name(), "case": case})).unwrap());
+                let v = json!({
+                    "property_id": property, "tier": tier, "seed": seed, "geometry": crate::geometry_name(), "wall_s": now as f64 / 1000.0,
+                    "evaluations": 1, "transitions": 1, "traces": 1, "states": 1, "distinct_nontrivial": 2,
+                    "outcomes": {}, "counters": {}, "samples": [case], "diverged_histories": 0,
+                    "rule": "run aborted by the watchdog", "bounds": {}, "assumptions": [], "exhaustive": false,
+                    "caps_hit": ["aborted by the watchdog"],
+                    "machinery_errors": if hang_is_verdict { json!([]) } else { json!([what.clone()]) },
+                    "violations_total": if hang_is_verdict { 1 } else { 0 }, "violations_new": if hang_is_verdict { 1 } else { 0 },
+                    "violation_lines": if hang_is_verdict { json!([{"property": property, "signature": "hang-without-progress", "what": what, "replay": path.to_string_lossy()}]) } else { json!([]) },
+                    "known_finding_lines": [], "extra": {},
+                });
+                let text = serde_json::to_string_pretty(&v).unwrap();
+                match &out {
+                    Some(p) => {
+                        let _ = std::fs::write(p, text);
+                    }
+                    None => println!("{}", text),
+                }
+                crate::exec::cleanup_scratch_base();
+                std::process::exit(if hang_is_verdict { 1 } else { 2 });
+            }
+        }
+    });
+}
